@@ -59,6 +59,8 @@ type sumRun struct {
 	// noOnlineSound disables the per-lookup soundness oracle (C14 checks exact lines at the end instead,
 	// because its ground truth, the real server's log, is only known after the run).
 	noOnlineSound bool
+	// afterLookup, if set, runs inside the world lock right after each Lookup returns.
+	afterLookup func(ci *sw.ClientInfo, q lookupReq, lines []string, err error)
 }
 
 func newSumRun(prop string, src *choice.Src, res *core.Result) *sumRun {
@@ -97,6 +99,9 @@ func (r *sumRun) startClient(spec clientSpec, ci *sw.ClientInfo, tag string) {
 				}
 				if !r.noOnlineSound {
 					r.w.CheckLookupResult(r.prop, ci, q.Path, q.Vers, lines, err)
+				}
+				if r.afterLookup != nil {
+					r.afterLookup(ci, q, lines, err)
 				}
 				r.w.Mu.Unlock()
 				r.outcomes[slot] = append(r.outcomes[slot], o)
